@@ -98,6 +98,14 @@ FoldSeq(alg, s) == IF Len(s) = 1 THEN s[1] ELSE Merge(alg, FoldSeq(alg, SubSeq(s
 RECURSIVE LeafItem(_, _)
 LeafItem(alg, c) == IF alg.t = "pair" THEN <<LeafItem(alg.a, c), LeafItem(alg.b, c)>> ELSE <<Lift(alg, c), IdMod(alg)>>
 
+\* An element handed to a constructor / set may carry a non-trivial pending-modifier field (items are plain structs
+\* with public fields; a copy of a leaf read out of another tree has one).  It denotes the same element.
+JunkMod(alg) == CASE ModKind(alg) = "add" -> 3 [] ModKind(alg) = "aff" -> <<2, 1>> [] OTHER -> 0
+RECURSIVE LeafItemJ(_, _, _)
+LeafItemJ(alg, c, j) ==
+    IF alg.t = "pair" THEN <<LeafItemJ(alg.a, c, j), LeafItemJ(alg.b, c, j)>>
+    ELSE <<Lift(alg, c), IF j = 1 THEN JunkMod(alg) ELSE IdMod(alg)>>
+
 RECURSIVE DefaultItem(_)
 DefaultItem(alg) == IF alg.t = "pair" THEN <<DefaultItem(alg.a), DefaultItem(alg.b)>> ELSE <<Ident(alg), IdMod(alg)>>
 
